@@ -32,6 +32,8 @@ def gen_value(rng, depth=0, opaque=0.0):
   if k == 1:
     return {'t': [gen_value(rng, depth + 1, opaque) for _ in range(n)]}
   keys = rng.sample([1, 2, {'s': 'k'}, {'s': 'j'}, None, {'t': [1, 2]}], min(n, 3))
+  from encode import canon
+  keys = sorted(keys, key=canon)
   return {'d': [[kk, gen_value(rng, depth + 1, opaque)] for kk in keys]}
 
 
